@@ -22,3 +22,10 @@ func NewVerifWorker(a aio.AIO, m *metrics.Metrics, targets map[string]*receiver.
 	}
 	return w
 }
+
+// VerifWorker exposes the worker of a Sender built by New (with its target table, including the
+// default target New adds), so that recording plugins can be attached with AddPlugin.
+func (s *Sender) VerifWorker() *SenderWorker { return s.worker }
+
+// VerifSetAIO lets the harness receive the worker's completions.
+func (w *SenderWorker) VerifSetAIO(a aio.AIO) { w.aio = a }
